@@ -69,13 +69,16 @@ pub fn c01(tier: Tier) -> i32 {
     let census = run_census();
     census_guard(&mut run, &census);
     let canon = canonical_templates(&census);
+    let diverse = diverse_templates(&census);
     let plan = Plan {
         census: &census,
         canon: &canon,
+        diverse: &diverse,
         tier: tier.clone(),
     };
     let out = run_nat(f_c01, cap(&tier), &|sink| {
         s1_values_flags(&plan, Scope::AllDirect, sink);
+        s1d_shape_diversity(&plan, Scope::Data, sink);
         s2_register_identity(&plan, Scope::Data, sink);
         s4_shift_counts(&plan, sink);
         s5_division(&plan, sink);
@@ -86,7 +89,7 @@ pub fn c01(tier: Tier) -> i32 {
         }
     });
     run.findings.merge(out.findings.clone());
-    let mut sweeps = vec!["S0", "S1", "S2", "S4", "S5", "S7(census only)", "S8a(census only)"];
+    let mut sweeps = vec!["S0", "S1", "S1d", "S2", "S4", "S5", "S7(census only)", "S8a(census only)"];
     if tier.is_thorough() {
         sweeps.push("S1'");
     }
@@ -143,9 +146,11 @@ pub fn c01(tier: Tier) -> i32 {
 pub fn census_baseline() -> i32 {
     let census = run_census();
     let canon = canonical_templates(&census);
+    let diverse = diverse_templates(&census);
     let plan = Plan {
         census: &census,
         canon: &canon,
+        diverse: &diverse,
         tier: Tier::Quick,
     };
     let out = run_nat(f_c01, 600, &|sink| {
@@ -177,13 +182,16 @@ pub fn c02(tier: Tier) -> i32 {
     let census = run_census();
     census_guard(&mut run, &census);
     let canon = canonical_templates(&census);
+    let diverse = diverse_templates(&census);
     let plan = Plan {
         census: &census,
         canon: &canon,
+        diverse: &diverse,
         tier: tier.clone(),
     };
     let out = run_nat(f_c02, cap(&tier), &|sink| {
         s1_values_flags(&plan, Scope::AllDirect, sink);
+        s1d_shape_diversity(&plan, Scope::Data, sink);
         s4_shift_counts(&plan, sink);
         s5_division(&plan, sink);
         s7_control(&plan, sink);
@@ -194,7 +202,7 @@ pub fn c02(tier: Tier) -> i32 {
         }
     });
     run.findings.merge(out.findings.clone());
-    let mut sweeps = vec!["S0", "S1", "S4", "S5", "S7", "S8a"];
+    let mut sweeps = vec!["S0", "S1", "S1d", "S4", "S5", "S7", "S8a"];
     if tier.is_thorough() {
         sweeps.push("S2");
         sweeps.push("S1'");
@@ -210,9 +218,11 @@ pub fn c03(tier: Tier) -> i32 {
     let census = run_census();
     census_guard(&mut run, &census);
     let canon = canonical_templates(&census);
+    let diverse = diverse_templates(&census);
     let plan = Plan {
         census: &census,
         canon: &canon,
+        diverse: &diverse,
         tier: tier.clone(),
     };
     let out = run_nat(f_c03, cap(&tier), &|sink| {
@@ -241,9 +251,11 @@ pub fn c04(tier: Tier) -> i32 {
     let census = run_census();
     census_guard(&mut run, &census);
     let canon = canonical_templates(&census);
+    let diverse = diverse_templates(&census);
     let plan = Plan {
         census: &census,
         canon: &canon,
+        diverse: &diverse,
         tier: tier.clone(),
     };
     let maxlen = if tier.is_thorough() { 4 } else { 3 };
@@ -264,9 +276,11 @@ pub fn c05(tier: Tier) -> i32 {
     let census = run_census();
     census_guard(&mut run, &census);
     let canon = canonical_templates(&census);
+    let diverse = diverse_templates(&census);
     let plan = Plan {
         census: &census,
         canon: &canon,
+        diverse: &diverse,
         tier: tier.clone(),
     };
     let out = run_nat(f_c05, cap(&tier), &|sink| {
@@ -283,15 +297,18 @@ pub fn c06(tier: Tier) -> i32 {
     let census = run_census();
     census_guard(&mut run, &census);
     let canon = canonical_templates(&census);
+    let diverse = diverse_templates(&census);
     let plan = Plan {
         census: &census,
         canon: &canon,
+        diverse: &diverse,
         tier: tier.clone(),
     };
     let out = run_nat(f_c06, cap(&tier), &|sink| {
         s5_division(&plan, sink);
         s6_placement(&plan, sink);
         s1_values_flags(&plan, Scope::AllDirect, sink);
+        s1d_shape_diversity(&plan, Scope::AllDirect, sink);
         s2_register_identity(&plan, Scope::Data, sink);
         s4_shift_counts(&plan, sink);
         if plan.tier.is_thorough() {
@@ -299,7 +316,7 @@ pub fn c06(tier: Tier) -> i32 {
         }
     });
     run.findings.merge(out.findings.clone());
-    let mut sweeps = vec!["S0", "S5", "S6", "S1", "S2", "S4"];
+    let mut sweeps = vec!["S0", "S5", "S6", "S1", "S1d", "S2", "S4"];
     if tier.is_thorough() {
         sweeps.push("S1'");
     }
